@@ -25,12 +25,16 @@ class DeltaImputer(EagerImputer):
         if len(vector) == 0 or len(design_vectors) == 0:
             return vector, np.zeros((0, 0), dtype=int)
 
+        # This existence pattern may have less design variables than the maximum
+        n_dv = design_vectors.shape[1]
+        vector = np.array(vector)[:n_dv]
+
         # Determine delta values to try out
         def _sort_by_dist(des_var_delta):
             i_sorted = np.argsort(np.abs(des_var_delta))
             return des_var_delta[i_sorted]
 
-        delta_values = [_sort_by_dist(np.arange(dv.n_opts)-vector[i]) for i, dv in enumerate(self._design_vars)]
+        delta_values = [_sort_by_dist(np.arange(dv.n_opts)-vector[i]) for i, dv in enumerate(self._design_vars[:n_dv])]
 
         dv_map = self._dv_idx_map[existence]
         n_tries, n_tries_max = 0, self.n_max_tries
